@@ -1236,6 +1236,9 @@ class UTPM(Ring, RawAlgorithmsMixIn):
 
     def prod(self):
         x = self
+        if x.ndim != 1:
+            # the product of all elements, like numpy.prod
+            x = x.reshape((x.size,))
         D,P = x.data.shape[:2]
         y = UTPM(numpy.zeros((D,P), dtype=x.data.dtype))
         y.data[0,:] = 1.
@@ -1251,6 +1254,11 @@ class UTPM(Ring, RawAlgorithmsMixIn):
 
         else:
             xbar, = out
+
+        if x.ndim != 1:
+            # pullback for the flattened polynomial, added to xbar in the shape of x
+            xbar += cls.pb_prod(ybar, x.reshape((x.size,)), y).reshape(x.shape)
+            return xbar
 
         # forward and store intermediates
         z = x.zeros_like()
